@@ -10,6 +10,7 @@ Core Lean only.
 import E57.Model.Reader
 import E57.Proofs.BitsRead
 import E57.Proofs.PagesRead
+import E57.Proofs.HeaderPage
 import E57.Props.C12
 namespace E57
 
@@ -2044,15 +2045,21 @@ theorem Reader.open_spec (file : Bytes) (xo : XmlOracle) (fp : FloatParse) (rd :
     cases hp : PR.new ⟨file, 48⟩ header.pageSize with
     | err e => simp [hh, hp, Outcome.toOption] at h
     | panic e => simp [hh, hp, Outcome.toOption] at h
-    | ok pr =>
-      have i0 := pr_new_inv _ _ pr hp
-      obtain ⟨d0, p0, _⟩ := pr_new_data _ _ pr hp
+    | ok pr00 =>
+      have i00 := pr_new_inv _ _ pr00 hp
+      obtain ⟨d00, p00, _⟩ := pr_new_data _ _ pr00 hp
+      cases hc : checkHeaderPage pr00 with
+      | none => simp [hh, hp, hc, Outcome.toOption] at h
+      | some pr =>
+      obtain ⟨i0, s0, -⟩ := checkHeaderPage_some pr00 pr i00 hc
+      have d0 : pr.dev.data = file := s0.1.trans d00
+      have p0 : pr.pageSize = header.pageSize := s0.2.1.trans p00
       cases hx : extractXml pr header.xmlOffset header.xmlLength with
-      | none => simp [hh, hp, hx, Outcome.toOption] at h
+      | none => simp [hh, hp, hc, hx, Outcome.toOption] at h
       | some res =>
         obtain ⟨pr1, xml⟩ := res
         obtain ⟨x1, x2, x3, x4, _⟩ := extractXml_spec pr _ _ pr1 xml i0 hx
-        simp only [hh, hp, hx, Outcome.toOption, Option.bind_eq_bind, Option.bind_some,
+        simp only [hh, hp, hc, hx, Outcome.toOption, Option.bind_eq_bind, Option.bind_some,
           Option.bind_eq_some_iff, Option.pure_def, Option.some.injEq] at h
         obtain ⟨doc, _, root, _, pcs, _, imgs, _, e⟩ := h
         subst e
@@ -2302,7 +2309,7 @@ theorem Reader.open_rangeOk (file : Bytes) (xo : XmlOracle) (fp : FloatParse) (r
     (h : Reader.open file xo fp = some rd) : ∀ pc ∈ rd.pcs, Prototype.RangeOk pc.prototype := by
   unfold Reader.open at h
   simp only [Option.bind_eq_bind, Option.bind_eq_some_iff, Option.pure_def, Option.some.injEq] at h
-  obtain ⟨_, _, _, _, _, _, doc, _, _, _, pcs, hpcs, _, _, h⟩ := h
+  obtain ⟨_, _, _, _, _, _, _, _, doc, _, _, _, pcs, hpcs, _, _, h⟩ := h
   subst h
   exact pointcloudsFromDocument_rangeOk fp doc pcs hpcs
 
